@@ -19,7 +19,6 @@
 
 from __future__ import annotations
 
-import contextlib
 import json
 import logging
 import re
